@@ -79,7 +79,8 @@ def correspondence(ctx, batch):
                                             for n, lk, ds in args]}, ans, {"args": args})
     from json_to_models.cli import Cli
     from json_to_models.registry import ModelFieldsPercentMatch as P, ModelFieldsNumberMatch as N
-    dn, dd = float(P.DEFAULT).as_integer_ratio()
+    from fractions import Fraction
+    dn, dd = Fraction(repr(float(P.DEFAULT))).as_integer_ratio()
     for m in ["percent", "number", "exact", "percent_95", "percent_33.3", "percent_abc", "number_5", "number_x", "number_-1",
               "foo", "foo_1", "exact_1", "percent_70_1", "number_07", "percent_1e1", "percent_", "_", "percent_ 5 "]:
         def run(m=m):
@@ -93,9 +94,9 @@ def correspondence(ctx, batch):
         pt, it = [], []
         for a in parts[1:]:
             try:
-                n, d = (float(a) / 100).as_integer_ratio()
+                n, d = Fraction(repr(float(a) / 100)).as_integer_ratio()
                 pt.append([a, max(n, 0), d])
-            except (ValueError, OverflowError):
+            except (ValueError, OverflowError, ZeroDivisionError):
                 pt.append([a, None])
             try:
                 it.append([a, max(0, int(a))])
@@ -242,6 +243,9 @@ def falsify(ctx):
             try:
                 want = library_text({"Root": samples}, opts)
                 lib_err = None
+            except stages.TooCostly:
+                ctx.count("skip:too-costly")
+                continue
             except Exception as e:  # noqa
                 want, lib_err = None, f"{type(e).__name__}: {e}"
             if lib_err is not None:
